@@ -124,7 +124,7 @@ Probes(c, S) ==
   \cup {P(c, S, "ts_future", "t", [D EXCEPT !.ts = t]) : t \in {Now + Future - 1, Now + Future, Now + Future + 1}}
   \cup {P(c, S, "target", "t", [D EXCEPT !.target = t]) : t \in {"epoch", "other"}}
   \cup {P(c, S, "cellbase", x, [D EXCEPT !.cb = x]) :
-          x \in {"ok", "missing", "second", "notfirst", "since", "twoout", "badwitness", "witnesshashtype", "nowitness"}
+          x \in {"ok", "missing", "second", "notfirst", "since", "twoout", "badwitness", "witnesshashtype", "nowitness", "witnessextra"}
                 \cup (IF final THEN {"type", "data", "nodata"} ELSE {})}
   \cup {P(c, S, "roots", x, [D EXCEPT !.roots = x]) : x \in {"ok", "txroot", "proproot", "extrahash"}}
   \cup {P(c, S, "bytes", "b", [D EXCEPT !.bytes = x]) : x \in {MaxBytes - 1, MaxBytes, MaxBytes + 1}}
